@@ -7,7 +7,7 @@ for p in sorted(glob.glob("/verif/seeded/*/meta.json")):
     d = os.path.dirname(p)
     notes = open(os.path.join(d, "notes.md"), errors="replace").read() if os.path.exists(os.path.join(d, "notes.md")) else ""
     title = next((ln.strip("# ").strip() for ln in notes.splitlines() if ln.strip()), "")
-    title = re.sub(r"^C\d\d\s*(seed)?\s*[/ ]?\s*[a-f]\s*[-–—:]+\s*", "", title)[:150].replace("|", "\\|")
+    title = re.sub(r"^C\d\d\s*(seed)?\s*[/ ]?\s*[a-l]\s*[-–—:]+\s*", "", title)[:150].replace("|", "\\|")
     rc = m.get("rechecked", {})
     own = [l for l in m.get("checks_on_patched_tree", {}).get(m["property"], {}).get("lines", [])]
     rules = sorted({l.split()[0] for l in own if l.startswith("R-")})
